@@ -123,7 +123,7 @@ def run_property(prop: str, tier: str, seed: int) -> int:
     ctx_mp = mp.get_context("fork")
     results: List[Dict[str, Any]] = []
     not_run = 0
-    with ctx_mp.Pool(NPROC, maxtasksperchild=getattr(mod, "TASKS_PER_CHILD", 20)) as pool:
+    with ctx_mp.Pool(NPROC, maxtasksperchild=getattr(mod, "TASKS_PER_CHILD", 1)) as pool:
         it = pool.imap_unordered(_worker, tasks, chunksize=1)
         for _ in range(len(tasks)):
             remaining = budget - (time.time() - t0)
